@@ -10,6 +10,7 @@ import Verif.Model.ExprParser
 import Verif.Model.Value
 import Verif.Model.Funcs
 import Verif.Model.Calc
+import Verif.Model.Mustache
 
 open Verif
 
@@ -417,6 +418,46 @@ def doColl (args : List String) : String :=
   let names := c.items.map fun e => showRunes e.1 ++ "=" ++ toString e.2
   " ".intercalate outs ++ " | " ++ " ".intercalate names
 
+/-! ### mustache: `tplparse <src>` and `tpl <src> ; <key>=<value>*` (keys/values as rune lists) -/
+
+mutual
+partial def showMTok : MTok → String
+  | .mk typ value kids =>
+    let base := s!"{typ.toNat}:{showRunes value}"
+    if typ == .section || typ == .invertedSection then base ++ "{" ++ showMToks kids ++ "}" else base
+partial def showMToks : MToks → String
+  | .nil => ""
+  | .cons t .nil => showMTok t
+  | .cons t rest => showMTok t ++ " " ++ showMToks rest
+end
+
+def doTplParse (args : List String) : String :=
+  match args with
+  | [src] =>
+    match parseTemplate (parseRunes src) with
+    | .error e => s!"err {e.code}"
+    | .ok p =>
+      let vars := if p.vars.isEmpty then "-" else " ".intercalate (p.vars.map showRunes)
+      s!"ok {showMToks p.tree} ; {vars}"
+  | _ => "bad-op"
+
+def doTpl (args : List String) : String :=
+  match args with
+  | src :: ";" :: binds =>
+    let vars := binds.filterMap fun b =>
+      match b.splitOn "=" with
+      | [k, v] => some (parseRunes k, parseRunes v)
+      | _ => none
+    if vars.length != binds.length then "bad-op"
+    else match renderTemplate (parseRunes src) vars with
+      | .error e => s!"err {e.code}"
+      | .ok r => s!"ok {showRunes r}"
+  | [src] =>
+    match renderTemplate (parseRunes src) [] with
+    | .error e => s!"err {e.code}"
+    | .ok r => s!"ok {showRunes r}"
+  | _ => "bad-op"
+
 def handle (line : String) : String :=
   match (line.trimAscii.toString.splitOn " ").filter (· != "") with
   | [] => ""
@@ -434,6 +475,8 @@ def handle (line : String) : String :=
   | "fn" :: args => doFn args
   | "eval" :: args => doEval args
   | "coll" :: args => doColl args
+  | "tplparse" :: args => doTplParse args
+  | "tpl" :: args => doTpl args
   | _ => "bad-op"
 
 end Drv
